@@ -137,12 +137,13 @@ theorem C04_mtime_readback (fs fs' : FS) (abs : List Comp) (p : FPath) (t : Int)
 (`syncDest`, which `C01_mirror_fs` shows to end `ok` in the mirror state), the plan computed from the
 same source and any complete listing of the destination as it now is — has no deletion and no creation:
 whatever was written (times at ns resolution, link texts through `writeLinkB`) reads back as up to date. -/
-theorem C04_second_run_empty_fs {fs0 : FS} {r : FPath} {ld ld' : List (FPath × Node)} {src : FPath → Option SEntry}
-    {ls : List (FPath × SEntry)} (hw : DestWF fs0 r ld) (hs : SrcWF src ls) :
+theorem C04_second_run_empty_fs {vis : FPath → Bool} {fs0 : FS} {r : FPath} {ld ld' : List (FPath × Node)} {src : FPath → Option SEntry}
+    {ls : List (FPath × SEntry)} (hw : DestWF vis fs0 r ld) (hs : SrcWF vis src ls)
+    (hsafe : ∀ p c n, (p, Node.folder) ∈ planDel src ld → fs0.get (r ++ (p ++ [c])) = some n → vis (p ++ [c]) = true) :
     ∃ fs', syncDest fs0 r src ls ld = .ok fs' ∧
-      ((∀ p n, (p, n) ∈ ld' → p ≠ [] ∧ fs'.get (r ++ p) = some n) →
+      ((∀ p n, (p, n) ∈ ld' → p ≠ [] ∧ vis p = true ∧ fs'.get (r ++ p) = some n) →
         planDel src ld' = [] ∧ planCpy (fun p => fs'.get (r ++ p)) ls = []) := by
-  obtain ⟨fs', h1, -, -, hm⟩ := sync_mirror hw hs
+  obtain ⟨fs', h1, -, -, hm, -⟩ := sync_mirror hw hs hsafe
   exact ⟨fs', h1, fun hld => second_plan_empty hm (fun p e h => (hs.listed p e).mp h) hld⟩
 
 /-- Non-vacuity of `C04_replan_empty`'s hypotheses: a source with a file, a folder and a link whose text is
